@@ -44,7 +44,7 @@ def pChebPrm : P (ChebParams Rat) := do
   let deg ← pNat; let hi ← pRat; let lo ← pRat; let sc ← pBool
   pure { degree := deg, higher := hi, lower := lo, scale := sc }
 
-def rabs : Rat → Rat := absK
+def rabs : Rat → Rat := Amgcl.absK
 
 def outcome {S : Type} (o : SetupOutcome S) (k : S → String) : String :=
   match o with
@@ -110,20 +110,20 @@ def handle (op : String) (args : List String) : Option String :=
   | "relax_cheb_pre" | "relax_cheb_post" =>
     withArgs (do let p ← pChebPrm; let a ← pSweepArgs; pure (p, a)) args fun (p, A, f, x, t) =>
       if sweepOk A f x t then
-        let sm := chebyshev p rabs
+        let sm := chebyshev p
         outcome (sm.setup A) fun s => show2 (if op == "relax_cheb_pre" then sm.applyPre s A f x t else sm.applyPost s A f x t)
       else badInput
   | "relax_cheb_apply" =>
     withArgs (do let p ← pChebPrm; let A ← pCRS; let f ← pVec; pure (p, A, f)) args fun (p, A, f) =>
       if square A && f.size == A.nrows then
-        let sm := chebyshev p rabs
+        let sm := chebyshev p
         outcome (sm.setup A) fun s => showVec (sm.apply s A f)
       else badInput
   | "relax_cheb_twice" =>
     withArgs (do let p ← pChebPrm; let A ← pCRS; let f ← pVec; let x ← pVec; let g ← pVec; pure (p, A, f, x, g)) args
       fun (p, A, f, x, g) =>
       if sweepOk A f x g then
-        let sm := chebyshev p rabs
+        let sm := chebyshev p
         outcome (sm.setup A) fun s =>
           let r1 := chebSolve s A f x s.p s.r
           let r2 := chebSolve s A g r1.1 r1.2.1 r1.2.2
@@ -133,7 +133,7 @@ def handle (op : String) (args : List String) : Option String :=
     withArgs (do let hi ← pRat; let lo ← pRat; let sc ← pBool; let A ← pCRS; pure (hi, lo, sc, A)) args
       fun (hi, lo, sc, A) =>
       if square A then
-        let sm := chebyshev { degree := 0, higher := hi, lower := lo, scale := sc } rabs
+        let sm := chebyshev { degree := 0, higher := hi, lower := lo, scale := sc }
         outcome (sm.setup A) fun s => showRat s.c ++ " " ++ showRat s.d
       else badInput
   | "relax_ilu0_pre" | "relax_ilu0_post" =>
